@@ -345,6 +345,17 @@ func runC12(p *Prog, r *Report) {
 			r.Obs = append(r.Obs, &o2)
 		}
 	}
+	// the receive loop sleeps only its fixed retry pause and carries no state from one iteration to the
+	// next (C20.R1 re-evaluated): a growing, uninterruptible back-off would outlive cancellation
+	sub20 := NewReport("C12x", "quick")
+	runC20(p, sub20)
+	for _, o := range sub20.Obs {
+		if o.Rule == "C20.R1" {
+			o2 := *o
+			o2.Rule = "C12.R3"
+			r.Obs = append(r.Obs, &o2)
+		}
+	}
 	sub9 := NewReport("C12x", "quick")
 	runC09(p, sub9)
 	for _, o := range sub9.Obs {
@@ -669,6 +680,12 @@ func (a *awaitState) awaitWaitGroup(wg ssa.Value, fn *ssa.Function, depth int) {
 								if o == w {
 									signals = true
 								}
+							}
+						}
+						// a WaitGroup kept in a struct field: the same field of the same type
+						if fa, isFA := wg.(*ssa.FieldAddr); isFA {
+							if fb, isFB := recv.(*ssa.FieldAddr); isFB && fieldObj(fa) != nil && fieldObj(fa) == fieldObj(fb) {
+								signals = true
 							}
 						}
 					}
